@@ -19,6 +19,11 @@ daughters per decay counted with multiplicity.  ``family_shapes`` enumerates a f
 keeps one representative per class of shapes equal up to renaming (of decaying particles and of stable
 names).
 
+Besides the shapes this module holds the oracles of the five properties: ``leaves`` / ``bf`` / ``tree`` /
+``dict_form`` / ``canon_dict`` (C11, C12), ``read_back`` with the pattern family ``PATTERNS`` (C13),
+``FormatModel`` / ``placeholders`` (C14), ``chain_dict_from_tables`` / ``graph_spec`` (C15), and small
+helpers shared by the check modules (JSON form of chains, forked slices, a time limit for calls).
+
 A *chain* (concrete) is ``{"mother": str, "decays": [[name, bf, [[daughter, mult], ...], metadata], ...]}``
 (a JSON-able structure; the list order of "decays" is the insertion order of the mapping given to the
 library).
